@@ -86,6 +86,19 @@ class List(Ty):
         return z3.SeqSort(self.elem.sort())
 
 
+class TupleOf(List):
+    """Variable-length homogeneous tuple `tuple[T, ...]`: a sequence like List(T) (same sort: iteration, len, indexing, slices,
+    `in`, `+` work the same) but a DIFFERENT python type: `isinstance(x, tuple)` holds, it is never `==` to a list, and it can be an
+    alternative of a Union next to STR (`str | tuple[str, ...]`)."""
+
+    def __init__(self, elem: Ty):
+        List.__init__(self, elem)
+        self.key = ("TupleOf", elem.key)
+
+    def name(self):
+        return f"TupleOf[{self.elem.name()}]"
+
+
 class Set(Ty):
     def __init__(self, elem: Ty):
         self.elem = elem
